@@ -257,6 +257,7 @@ Proof.
   - destruct (negb (validate_counts (first :: rest) (length cols0))); [discriminate|].
     destruct (existsb _ rest); [discriminate|].
     destruct (negb (validate_parsable _)); [discriminate|].
+    destruct (negb (validate_trait_names _ _)); [discriminate|].
     apply mk_tables_built in H. destruct H as [_ ->]. reflexivity.
 Qed.
 
